@@ -54,7 +54,7 @@ def _match(sig: dict, rec: dict) -> bool:
 class Check:
     """One run of one property's check."""
 
-    def __init__(self, pid: str, tier: str, seed: int):
+    def __init__(self, pid: str, tier: str, seed: int, clear_replays: bool = False):
         self.pid = pid
         self.tier = tier
         self.seed = seed
@@ -71,6 +71,11 @@ class Check:
         }
         self.assumptions = []
         self._findings = [f for f in load_findings().get("findings", []) if f.get("property") == pid]
+        d = os.path.join(REPLAY_DIR, pid)
+        if clear_replays and os.path.isdir(d):   # replay files of earlier runs are stale
+            for fn in os.listdir(d):
+                if fn.endswith(".json"):
+                    os.unlink(os.path.join(d, fn))
         self._seen_viol = set()
 
     # ---- reporting -------------------------------------------------------------------------
